@@ -555,6 +555,23 @@ func (w *World) labels(pre, post map[string]interface{}, a Act) map[string]inter
 		}
 	}
 	ev["v2EsmDue"], ev["v1EsmDue"] = 0, 0
+	// v2EsmStale: the step starts under shutdown with a vault-initiated V2 Dutch auction whose end time had already passed BEFORE this step, i.e. one
+	// that an earlier block's TriggerEsm was due for and left in place (KF-C01-ESM-2a: the close-out never removes the auction and repeats)
+	tPre, _ := pre["t"].(int64)
+	stale := 0
+	if flag(pre, "status") {
+		list, _ := pre["auctions"].([]interface{})
+		for _, x := range list {
+			m := x.(map[string]interface{})
+			if d, ok := m["dutch"].(bool); ok && !d {
+				continue
+			}
+			if end, _ := m["end"].(int64); vaultInit[m["lv"].(uint64)] && tPre > end {
+				stale++
+			}
+		}
+	}
+	ev["v2EsmStale"] = stale > 0
 	if a.A == "Block" {
 		ev["v2EsmDue"] = due("auctions", vaultInit)
 	}
